@@ -3,7 +3,7 @@ import collections
 import re
 
 from mirlib import op_place, AnchorMissing, describe_operand, describe_place, describe_rvalue, dom_guards, _suffix_match
-from rules.common import where
+from rules.common import where, in_variant
 
 META = {
     "explanation": (
@@ -60,7 +60,8 @@ def arm_calls(b, si):
     for m, t in ve.items():
         if t == si["otherwise"]:
             continue
-        reach = b.reachable_from([t], avoid={si["block"]})
+        # (an or-pattern arm shared by several markers may tell them apart again further down: each marker sees only its own way through)
+        reach = b.reachable_assuming(si["block"], m, avoid={si["block"]})
         for c in b.calls:
             if c.block in reach:
                 out[m].append(c)
@@ -298,9 +299,11 @@ def run(ctx):
         for i, j, p, rv, line in wb.assigns():
             if sb_local is not None and p[0] == sb_local and not p[1]:
                 d = describe_rvalue(wb, rv)
-                lab = [l for dd, l, _ in dom_guards(wb, i) if "Sign::Minus" in dd]
+                # `if sign == Sign::Minus` or `match sign { Sign::Minus => .., _ => .. }`
+                lab = [l == "true" for dd, l, _ in dom_guards(wb, i) if "Sign::Minus" in dd]
+                lab += [l == "Minus" for dd, l, sb_ in dom_guards(wb, i) if dd.startswith("disc(") and ((wb.switch_info(sb_) or {}).get("adt") or "").endswith("Sign")]
                 if d.isdigit() and lab:
-                    wsign["Minus" if lab[-1] == "true" else "other"] = int(d)
+                    wsign["Minus" if lab[-1] else "other"] = int(d)
         rsign = {}
         for i, j, p, rv, line in re_b.assigns():
             d = describe_rvalue(re_b, rv)
@@ -362,7 +365,7 @@ def run(ctx):
         r.check(km == {"write_map_len": "true", "write_array_len": "false"}, "writer/complete_header/kind->header", where(ch), "MapLike bodies get a map header, every other kind an array header", "body headers by kind: %s" % km)
         ws = ctx.saw(mp.fn(name="write_slot", self_adt="writer::MsgPackBodyInterpreter"))
         al = [c for c in ws.calls if c.name == "write_array_len"]
-        okk = len(al) == 1 and describe_operand(ws, al[0].args[1]) == "2" and any(d.endswith(".kind)") and l == "Mixed" for d, l, _ in dom_guards(ws, al[0].block))
+        okk = len(al) == 1 and describe_operand(ws, al[0].args[1]) == "2" and (any(d.endswith(".kind)") and l == "Mixed" for d, l, _ in dom_guards(ws, al[0].block)) or in_variant(ws, al[0].block, "self.kind", "Mixed"))
         r.check(okk, "writer/write_slot/mixed=>pair", where(ws), "a slot in a mixed body is written as an array of two", "a slot in a mixed body is not framed as array(2)")
         sm = mp.const("reader::SLOT_MARKER")
         slot = "%s(%s)" % (sm.get("variant"), ",".join(str(x) for x in sm.get("fields", [])))
@@ -379,8 +382,16 @@ def run(ctx):
                     if mm:
                         w = getters_of(rb, [x for x in rb.calls if x.name in ("get_u16", "get_u32") and x.block != c.block and rb.dominates(x.block, c.block)])
                         eqs[mm.group(1)] = w
-        r.check(set(eqs) == {"Map16", "Map32"} and "get_u16" in eqs.get("Map16", ()) and "get_u32" in eqs.get("Map32", ()) and "get_u32" not in eqs.get("Map16", ()), "reader/read_record_body/map-vs-array-by-marker", where(rb),
-                "a 16/32-bit body header is a map body exactly when the marker is Map16/Map32", "map/array distinction in the body: %s" % eqs)
+        by_marker = {}
+        if not eqs:
+            # the flag may be a constant of the arm (`Map16 | Map32 => (read_prefixed_len(..)?, true)`): what matters is which body reader a marker reaches
+            swm = [si for si in rb.switches_on(lambda p_, si: True) if si.get("kind") == "disc" and (si.get("adt") or "").endswith("Marker")]
+            for m_ in ("Map16", "Map32", "Array16", "Array32"):
+                reach_ = rb.reachable_assuming(swm[0]["block"], m_, avoid={swm[0]["block"]}) if swm else set()
+                by_marker[m_] = sorted({c.name for c in rb.calls if c.block in reach_ and c.name in ("read_map_body", "read_array_body")})
+        r.check((set(eqs) == {"Map16", "Map32"} and "get_u16" in eqs.get("Map16", ()) and "get_u32" in eqs.get("Map32", ()) and "get_u32" not in eqs.get("Map16", ()))
+                or by_marker == {"Map16": ["read_map_body"], "Map32": ["read_map_body"], "Array16": ["read_array_body"], "Array32": ["read_array_body"]}, "reader/read_record_body/map-vs-array-by-marker", where(rb),
+                "a 16/32-bit body header is a map body exactly when the marker is Map16/Map32", "map/array distinction in the body: %s" % (eqs or by_marker))
 
     with ctx.rule("C16.R5", "T5", "integer recognisers accept all four integer event kinds, the float recogniser all five", floor=9) as r:
         numeric_kind_rules(r, ctx, f)
